@@ -22,6 +22,35 @@ def load_floors():
         return {}
 
 
+def lost_confirmed(ctx, floors):
+    """Obligations discharged on the confirmed tree (floors.json) that are now `unknown`, or absent while another obligation of
+    the same rule on the same function is unknown (the recogniser gave up on that function)."""
+    conf = [tuple(k) for k in (floors or {}).get("confirmed", [])]
+    if not conf:
+        return []
+    now = {o.key: o.status for o in ctx.obs}
+    unk_pairs = {(o.rule, o.function) for o in ctx.obs if o.status == "unknown"}
+    lost = []
+    for k in conf:
+        st = now.get(k)
+        if st == "unknown" or (st is None and (k[0], k[1]) in unk_pairs):
+            lost.append(k)
+    return lost
+
+
+def common(ctx):
+    """Generic rules applied, in both tiers, to every function the property's own check placed an obligation on."""
+    from .rules import r_fresh_result, r_scalar_dim_expand
+
+    ctx.rule("R-EFFECT", "array-returning functions are not memoised: every call returns a fresh object")
+    ctx.rule("R-KIND", "a scalar `dim` expands to [dim, total/dim]: the scalar names the first local dimension, as the list form does")
+    for q in sorted(ctx.analysed_functions):
+        f = ctx.model.functions.get(q)
+        if f is not None:
+            r_scalar_dim_expand(ctx, f)
+            r_fresh_result(ctx, f)
+
+
 def run_property(pid: str, tier: str, model=None):
     model = model or RepoModel()
     ctx = Ctx(pid, model, tier)
@@ -29,6 +58,7 @@ def run_property(pid: str, tier: str, model=None):
     ctx.crashed = None
     try:
         mod.run(ctx)
+        common(ctx)
         if tier == "thorough":
             from .sweep import sweep
 
@@ -72,6 +102,14 @@ def main(argv=None) -> int:
         if floors and decided < floors.get("min_decided", 0):
             print(f"ANALYSIS-ERROR property={pid}: only {decided} obligations decided, the confirmed floor is "
                   f"{floors['min_decided']}; the analysis no longer applies to this tree and must be re-confirmed")
+            return 2
+        lost = lost_confirmed(ctx, floors)
+        if lost and not any(o.status == "violated" for o in ctx.obs) and not args.replay:
+            finish(ctx, t0, seed, floors, None)
+            for k in lost[:8]:
+                print(f"  no longer decidable: {k[0]} {k[1]}: {k[2]}")
+            print(f"ANALYSIS-ERROR property={pid}: {len(lost)} obligation(s) confirmed on the reference tree can no longer be decided on this tree "
+                  f"(the code is in a shape the checker does not recognise); nothing is claimed about them until they are re-confirmed")
             return 2
         if args.replay:
             with open(args.replay) as fh:
